@@ -1301,6 +1301,9 @@ func runC14(c *Ctx) error {
 		offer(w.format, w.bs, w.kind, nil)
 	}
 
+	// ---- overlapping calls of every writer and reader
+	runC14Concurrent(c)
+
 	// ---- (c) type texts
 	texts := append([]string(nil), c14TypeTexts...)
 	for i := 0; i < c.N(150, 3000); i++ {
